@@ -17,6 +17,7 @@ def run(ctx):
     meta, errors = _ir.regenerate(ctx)
     ok, log = ctx.build_props()
     if ok:
+        _ir.nonvacuity(ctx, meta)
         _ir.check_programs(ctx, meta, IMPORTS, 'c02_check', None,
                            'the best agent may miss an evaluated minimum', 'C02_best_is_min')
         _ir.trace_inclusion(ctx, meta)
